@@ -221,7 +221,8 @@ int main(int argc, char** argv)
         h_solves++;
         { int pos = 0; for (double x : va) if (x > 0) pos++; if (pos >= 2) h_multi++; }
         conc_check(step, "solve");
-        if (limit <= 0) { /* fresh full system B */
+        { /* fresh full system B. With concurrency limits, B has no limit and gets the enabled/staged state of A (the
+             penalty A currently applies: 0 for a staged variable): "a fresh system holding the current activities" */
           lmm::System* b = lmm::System::build(solver, false);
           std::vector<lmm::Constraint*> bc;
           for (int c = 0; c < nc; c++) {
@@ -231,7 +232,7 @@ int main(int argc, char** argv)
           }
           std::vector<lmm::Variable*> bv;
           for (auto& x : vs) {
-            auto* v = b->variable_new(nullptr, x.pen, x.bound, nc);
+            auto* v = b->variable_new(nullptr, limit <= 0 ? x.pen : pa[bv.size()], x.bound, nc);
             for (auto& e : x.el)
               b->expand(bc[e.first], v, e.second);
             bv.push_back(v);
@@ -240,7 +241,7 @@ int main(int argc, char** argv)
           std::vector<double> vb, pb;
           for (size_t i = 0; i < vs.size(); i++) {
             vb.push_back(bv[i]->get_value());
-            pb.push_back(vs[i].pen);
+            pb.push_back(limit <= 0 ? vs[i].pen : pa[i]);
           }
           check_sys("B", vb, pb);
           for (size_t i = 0; i < vs.size(); i++)
@@ -249,7 +250,7 @@ int main(int argc, char** argv)
               printf("MISMATCH %d %d var=%zu selective=%.10g fresh=%.10g\n", h, step, i, va[i], vb[i]);
               break;
             }
-          if (dump) {
+          if (dump && limit <= 0) {
             printf("SYS %d %zu %d %d\n", nc, vs.size(), h, step);
             for (int c = 0; c < nc; c++)
               printf("C %.17g %d\n", cb[c], fat[c]);
